@@ -13,7 +13,7 @@ namespace Goml.GoComp
 open Goml Goml.Go Goml.GoCompile Goml.GoFrag
 open Goml.Sem (Val World Res Fail)
 open Goml.C01 (toG)
-open Goml.Dce (keys allDecls lookup_cons_self lookup_cons_ne lookup_none_of_not_key key_of_lookup_some
+open Goml.Dce (keys lookup_cons_self lookup_cons_ne lookup_none_of_not_key key_of_lookup_some
   keys_update lookup_update_ne lookup_update_self update_not_key)
 
 attribute [local irreducible] Goml.GoCompile.vn Goml.GoCompile.gid Goml.GoCompile.rn
@@ -32,7 +32,8 @@ theorem scalarEq_refl {a : Ty} (h : flatTy a = true) : scalarEq a a = true := by
 
 mutual
 /-- the Go value of a goml value: scalars as they are (`C01.toG`), a struct value as the Go struct
-    of its (escaped) name with its declared (escaped) field names -/
+    of its (escaped) name with its declared (escaped) field names, an enum value as the Go struct of
+    its variant with the payload fields `_0, _1, …` -/
 def toGV (env : Env) : Val → Option GVal
   | .unit => some .unit
   | .bool b => some (.bool b)
@@ -41,6 +42,13 @@ def toGV (env : Env) : Val → Option GVal
   | .structV n vs =>
     match env.getStruct n, toGVs env vs with
     | some d, some gs => some (.struct (gid n) ((d.fields.map fun f => gid f.1).zip gs))
+    | _, _ => none
+  | .enumV n idx vs =>
+    match env.getEnum n, toGVs env vs with
+    | some d, some gs =>
+      (match d.variants[idx]? with
+       | some v => some (.struct (variantGoName env n v.1) ((fieldNames 0 gs.length).zip gs))
+       | none => none)
     | _, _ => none
   | _ => none
 def toGVs (env : Env) : List Val → Option (List GVal)
@@ -52,7 +60,8 @@ def toGVs (env : Env) : List Val → Option (List GVal)
 end
 
 mutual
-/-- a value of a fragment type: scalars, and values of admitted struct types field by field -/
+/-- a value of a fragment type: scalars, values of admitted struct types field by field, values of
+    admitted enum types (an existing variant, payload by payload) -/
 def HasTy (env : Env) : Val → Ty → Prop
   | .unit, .unit => True
   | .bool _, .bool => True
@@ -62,6 +71,14 @@ def HasTy (env : Env) : Val → Ty → Prop
     n = n' ∧ n ∈ goodStructs env ∧
       (match env.getStruct n with
        | some d => HasTys env vs (d.fields.map (·.2))
+       | none => False)
+  | .enumV n idx vs, .enum n' =>
+    n = n' ∧ n ∈ goodEnums env ∧
+      (match env.getEnum n with
+       | some d =>
+         (match d.variants[idx]? with
+          | some v => HasTys env vs v.2
+          | none => False)
        | none => False)
   | _, _ => False
 def HasTys (env : Env) : List Val → List Ty → Prop
@@ -93,6 +110,10 @@ def EnvRel (env : Env) (Γ : Ctx) (ρ : Sem.Env) (gρ : GEnv) : Prop :=
     ∃ v gv, Sem.lookupEnv ρ x = some v ∧ lookupG gρ (vn x) = some gv ∧ toGV env v = some gv ∧ HasTy env v t) ∧
   (∀ x, lookupTy Γ x = none → Sem.lookupEnv ρ x = none)
 
+/-- what is known about the variants of variables (`K`) holds of the environment -/
+def KRel (K : KCtx) (ρ : Sem.Env) : Prop :=
+  ∀ x i, lookupK K x = some i → ∃ n vs, Sem.lookupEnv ρ x = some (.enumV n i vs)
+
 theorem lookupTy_cons_self (Γ : Ctx) (x : String) (t : Ty) : lookupTy ((x, t) :: Γ) x = some t := by
   simp [lookupTy, List.find?_cons]
 
@@ -107,6 +128,58 @@ theorem lookupEnv_cons_ne (ρ : Sem.Env) {x y : String} (v : Val) (h : x ≠ y) 
     Sem.lookupEnv ((x, v) :: ρ) y = Sem.lookupEnv ρ y := by
   have : (x == y) = false := by simp [h]
   simp [Sem.lookupEnv, List.find?_cons, this]
+
+/-! ### known variants -/
+
+theorem KRel.nil (ρ : Sem.Env) : KRel [] ρ := by
+  intro x i h; simp [lookupK] at h
+
+theorem lookupK_cons_self (K : KCtx) (x : String) (i : Nat) : lookupK ((x, i) :: K) x = some i := by
+  simp [lookupK, List.find?_cons]
+
+theorem lookupK_cons_ne (K : KCtx) {x y : String} (i : Nat) (h : x ≠ y) : lookupK ((x, i) :: K) y = lookupK K y := by
+  have : (x == y) = false := by simp [h]
+  simp [lookupK, List.find?_cons, this]
+
+theorem lookupK_erase_self : ∀ (K : KCtx) (x : String), lookupK (eraseK K x) x = none
+  | [], x => rfl
+  | (y, j) :: K, x => by
+    by_cases h : y = x
+    · subst h
+      have : eraseK ((y, j) :: K) y = eraseK K y := by simp [eraseK, List.filter_cons]
+      rw [this]; exact lookupK_erase_self K y
+    · have : eraseK ((y, j) :: K) x = (y, j) :: eraseK K x := by simp [eraseK, List.filter_cons, h]
+      rw [this, lookupK_cons_ne _ _ h]; exact lookupK_erase_self K x
+
+theorem lookupK_erase_ne : ∀ (K : KCtx) {x z : String}, x ≠ z → lookupK (eraseK K x) z = lookupK K z
+  | [], x, z, _ => rfl
+  | (y, j) :: K, x, z, hne => by
+    by_cases h : y = x
+    · subst h
+      have : eraseK ((y, j) :: K) y = eraseK K y := by simp [eraseK, List.filter_cons]
+      rw [this, lookupK_cons_ne _ _ hne]; exact lookupK_erase_ne K hne
+    · have : eraseK ((y, j) :: K) x = (y, j) :: eraseK K x := by simp [eraseK, List.filter_cons, h]
+      rw [this]
+      by_cases hz : y = z
+      · subst hz; rw [lookupK_cons_self, lookupK_cons_self]
+      · rw [lookupK_cons_ne _ _ hz, lookupK_cons_ne _ _ hz]; exact lookupK_erase_ne K hne
+
+/-- a `let x`: what was known about other variables stays -/
+theorem KRel.bind {K : KCtx} {ρ : Sem.Env} (h : KRel K ρ) (x : String) (v : Val) : KRel (eraseK K x) ((x, v) :: ρ) := by
+  intro z i hz
+  by_cases hxz : x = z
+  · subst hxz; rw [lookupK_erase_self] at hz; cases hz
+  · rw [lookupK_erase_ne K hxz] at hz
+    obtain ⟨n, vs, hl⟩ := h z i hz
+    exact ⟨n, vs, by rw [lookupEnv_cons_ne _ _ hxz]; exact hl⟩
+
+/-- inside the arm a `match` selected -/
+theorem KRel.know {K : KCtx} {ρ : Sem.Env} (h : KRel K ρ) {x : String} {n : String} {i : Nat} {vs : List Val}
+    (hx : Sem.lookupEnv ρ x = some (.enumV n i vs)) : KRel ((x, i) :: K) ρ := by
+  intro z j hz
+  by_cases hxz : x = z
+  · subst hxz; rw [lookupK_cons_self] at hz; injection hz with hz; subst hz; exact ⟨n, vs, hx⟩
+  · rw [lookupK_cons_ne _ _ hxz] at hz; exact h z j hz
 
 /-- a `let`: both environments grow by the same binding; the Go name is new -/
 theorem EnvRel.cons {env : Env} {Γ ρ gρ} (h : EnvRel env Γ ρ gρ) {x : String} {t : Ty} {v : Val} {gv : GVal}
@@ -193,46 +266,52 @@ theorem pop_append (D U ρ : GEnv) (h : U.length = ρ.length) : (D ++ U).drop ((
 
 /-! ### the Go-side name invariant -/
 
-/-- `S` is about to run in `gρ`: what `S` declares is pairwise distinct and new, and no name in
-    sight is one of `Bad` (`_` and the Go names of the callees) -/
-structure GInv (Bad : List String) (S : List GStmt) (gρ : GEnv) : Prop where
-  nodup : (allDecls S).Nodup
-  disj : ∀ y, y ∈ allDecls S → ¬ y ∈ keys gρ
-  goodD : ∀ y, y ∈ allDecls S → ¬ y ∈ Bad
+/-- the names `ds` are about to be declared in `gρ`: they are pairwise distinct and new, and no name
+    in sight is one of `Bad` (`_` and the Go names of the callees) -/
+structure GInvN (Bad : List String) (ds : List String) (gρ : GEnv) : Prop where
+  nodup : ds.Nodup
+  disj : ∀ y, y ∈ ds → ¬ y ∈ keys gρ
+  goodD : ∀ y, y ∈ ds → ¬ y ∈ Bad
   goodK : ∀ y, y ∈ keys gρ → ¬ y ∈ Bad
 
-theorem allDecls_append (a b : List GStmt) : allDecls (a ++ b) = allDecls a ++ allDecls b := by
-  induction a with
-  | nil => simp [allDecls]
-  | cons s a ih => simp [allDecls, ih, List.append_assoc]
+/-- `S` is about to run in `gρ` (`GInvN` of what `S` declares) -/
+abbrev GInv (Bad : List String) (S : List GStmt) (gρ : GEnv) : Prop := GInvN Bad (ndDecls S) gρ
 
-theorem allDecls_cons (s : GStmt) (a : List GStmt) : allDecls (s :: a) = Goml.Dce.declsOf s ++ allDecls a := by
-  simp [allDecls]
+theorem GInvN.sub {Bad ds ds' gρ} (h : GInvN Bad ds gρ) (hs : ds'.Sublist ds) : GInvN Bad ds' gρ :=
+  ⟨hs.nodup h.nodup, fun y hy => h.disj y (hs.subset hy), fun y hy => h.goodD y (hs.subset hy), h.goodK⟩
+
+theorem ndDecls_append (a b : List GStmt) : ndDecls (a ++ b) = ndDecls a ++ ndDecls b := by
+  induction a with
+  | nil => simp [ndDecls]
+  | cons s a ih => simp [ndDecls, ih, List.append_assoc]
+
+theorem ndDecls_cons (s : GStmt) (a : List GStmt) : ndDecls (s :: a) = ndDeclsOf s ++ ndDecls a := by
+  simp [ndDecls]
 
 theorem GInv.left {Bad a b gρ} (h : GInv Bad (a ++ b) gρ) : GInv Bad a gρ := by
-  have := h.nodup; rw [allDecls_append] at this
-  exact ⟨(List.nodup_append.mp this).1, fun y hy => h.disj y (by rw [allDecls_append]; exact List.mem_append_left _ hy),
-    fun y hy => h.goodD y (by rw [allDecls_append]; exact List.mem_append_left _ hy), h.goodK⟩
+  have := h.nodup; rw [ndDecls_append] at this
+  exact ⟨(List.nodup_append.mp this).1, fun y hy => h.disj y (by rw [ndDecls_append]; exact List.mem_append_left _ hy),
+    fun y hy => h.goodD y (by rw [ndDecls_append]; exact List.mem_append_left _ hy), h.goodK⟩
 
 /-- after the first part ran: it pushed `D` (names it declares) and kept the keys of the rest -/
 theorem GInv.right {Bad a b gρ} (h : GInv Bad (a ++ b) gρ) {D U : GEnv} (hU : keys U = keys gρ)
-    (hD : ∀ y, y ∈ keys D → y ∈ allDecls a) : GInv Bad b (D ++ U) := by
-  have hn := h.nodup; rw [allDecls_append] at hn
+    (hD : ∀ y, y ∈ keys D → y ∈ ndDecls a) : GInv Bad b (D ++ U) := by
+  have hn := h.nodup; rw [ndDecls_append] at hn
   obtain ⟨_, hnb, hdisj⟩ := List.nodup_append.mp hn
-  refine ⟨hnb, fun y hy => ?_, fun y hy => h.goodD y (by rw [allDecls_append]; exact List.mem_append_right _ hy), fun y hy => ?_⟩
+  refine ⟨hnb, fun y hy => ?_, fun y hy => h.goodD y (by rw [ndDecls_append]; exact List.mem_append_right _ hy), fun y hy => ?_⟩
   · rw [keys_append, List.mem_append, hU]
     rintro (hk | hk)
     · exact hdisj y (hD y hk) y hy rfl
-    · exact h.disj y (by rw [allDecls_append]; exact List.mem_append_right _ hy) hk
+    · exact h.disj y (by rw [ndDecls_append]; exact List.mem_append_right _ hy) hk
   · rw [keys_append, List.mem_append, hU] at hy
     rcases hy with hk | hk
-    · exact h.goodD y (by rw [allDecls_append]; exact List.mem_append_left _ (hD y hk))
+    · exact h.goodD y (by rw [ndDecls_append]; exact List.mem_append_left _ (hD y hk))
     · exact h.goodK y hk
 
 theorem GInv.keys_eq {Bad S gρ gρ'} (h : GInv Bad S gρ) (hk : keys gρ' = keys gρ) : GInv Bad S gρ' :=
   ⟨h.nodup, fun y hy => by rw [hk]; exact h.disj y hy, h.goodD, fun y hy => h.goodK y (by rw [← hk]; exact hy)⟩
 
-theorem GInv.of_decls {Bad S S' gρ} (h : GInv Bad S gρ) (hs : (allDecls S').Sublist (allDecls S)) : GInv Bad S' gρ :=
+theorem GInv.of_decls {Bad S S' gρ} (h : GInv Bad S gρ) (hs : (ndDecls S').Sublist (ndDecls S)) : GInv Bad S' gρ :=
   ⟨hs.nodup h.nodup, fun y hy => h.disj y (hs.subset hy), fun y hy => h.goodD y (hs.subset hy), h.goodK⟩
 
 theorem vn_def (x : String) : vn x = gid (rn x) := by unfold vn; rfl
@@ -240,24 +319,115 @@ theorem vn_def (x : String) : vn x = gid (rn x) := by unfold vn; rfl
 theorem flat_not_absurd {t : Ty} (h : flatTy t = true) : absurdTy (goTy t) = false := by
   cases t <;> simp [flatTy, scalarTy] at h <;> simp [goTy, absurdTy]
 
-theorem allDecls_ite (c : GExpr) (t e : List GStmt) : allDecls [GStmt.ite c t (some e)] = allDecls t ++ allDecls e := by
-  simp [allDecls, Goml.Dce.declsOf]
+theorem ndDecls_ite (c : GExpr) (t e : List GStmt) : ndDecls [GStmt.ite c t (some e)] = ndDecls t ++ ndDecls e := by
+  simp [ndDecls, ndDeclsOf]
 
-theorem allDecls_varDecl (x : String) (ty : GTy) (v : Option GExpr) (rest : List GStmt) :
-    allDecls (GStmt.varDecl x ty v :: rest) = x :: allDecls rest := by
-  simp [allDecls, Goml.Dce.declsOf]
+theorem ndDecls_varDecl (x : String) (ty : GTy) (v : Option GExpr) (rest : List GStmt) :
+    ndDecls (GStmt.varDecl x ty v :: rest) = x :: ndDecls rest := by
+  simp [ndDecls, ndDeclsOf]
 
-theorem allDecls_loop (b : List GStmt) (rest : List GStmt) : allDecls (GStmt.loop b :: rest) = allDecls b ++ allDecls rest := by
-  simp [allDecls, Goml.Dce.declsOf]
+theorem ndDecls_loop (b : List GStmt) (rest : List GStmt) : ndDecls (GStmt.loop b :: rest) = ndDecls b ++ ndDecls rest := by
+  simp [ndDecls, ndDeclsOf]
 
-theorem allDecls_assign (x : String) (e : GExpr) (rest : List GStmt) : allDecls (GStmt.assign x e :: rest) = allDecls rest := by
-  simp [allDecls, Goml.Dce.declsOf]
+theorem ndDecls_assign (x : String) (e : GExpr) (rest : List GStmt) : ndDecls (GStmt.assign x e :: rest) = ndDecls rest := by
+  simp [ndDecls, ndDeclsOf]
 
-theorem allDecls_ite_none (c : GExpr) (t : List GStmt) (rest : List GStmt) :
-    allDecls (GStmt.ite c t none :: rest) = allDecls t ++ allDecls rest := by
-  simp [allDecls, Goml.Dce.declsOf]
+theorem ndDecls_ite_none (c : GExpr) (t : List GStmt) (rest : List GStmt) :
+    ndDecls (GStmt.ite c t none :: rest) = ndDecls t ++ ndDecls rest := by
+  simp [ndDecls, ndDeclsOf]
 
-theorem allDecls_ret (e : Option GExpr) (rest : List GStmt) : allDecls (GStmt.ret e :: rest) = allDecls rest := by
-  simp [allDecls, Goml.Dce.declsOf]
+theorem ndDecls_ret (e : Option GExpr) (rest : List GStmt) : ndDecls (GStmt.ret e :: rest) = ndDecls rest := by
+  simp [ndDecls, ndDeclsOf]
+
+theorem ndDecls_switch (e : GExpr) (cs : List GCase) (d : Option (List GStmt)) :
+    ndDecls [GStmt.switch e cs d] = ndDeclsCases cs ++ (match d with | some b => ndDecls b | none => []) := by
+  cases d <;> simp [ndDecls, ndDeclsOf]
+
+theorem ndDecls_tswitch (b : Option String) (e : GExpr) (cs : List GTCase) (d : Option (List GStmt)) :
+    ndDecls [GStmt.tswitch b e cs d] = ndDeclsTCases cs ++ (match d with | some b => ndDecls b | none => []) := by
+  cases d <;> simp [ndDecls, ndDeclsOf]
+
+/-- re-binding a name that is already a key (a type switch binding its own scrutinee) keeps the invariant -/
+theorem GInvN.rebind {Bad S gρ} (h : GInvN Bad S gρ) {x : String} (hx : x ∈ keys gρ) (v : GVal) : GInvN Bad S ((x, v) :: gρ) := by
+  refine ⟨h.nodup, fun y hy hk => ?_, h.goodD, fun y hk => ?_⟩
+  · simp only [Goml.Dce.keys_cons, List.mem_cons] at hk
+    rcases hk with rfl | hk
+    · exact h.disj _ hy hx
+    · exact h.disj y hy hk
+  · simp only [Goml.Dce.keys_cons, List.mem_cons] at hk
+    rcases hk with rfl | hk
+    · exact h.goodK _ hx
+    · exact h.goodK y hk
+
+/-- shadowing a variable with its own value changes no lookup -/
+theorem lookup_rebind {gρ : GEnv} {x : String} {v : GVal} (h : lookupG gρ x = some v) (y : String) :
+    lookupG ((x, v) :: gρ) y = lookupG gρ y := by
+  by_cases hxy : x = y
+  · subst hxy; rw [lookup_cons_self, h]
+  · exact lookup_cons_ne _ _ hxy
+
+mutual
+/-- `ndDecls` leaves out only the bindings of type switches -/
+theorem ndDecls_sub : ∀ (S : List GStmt) (y : String), y ∈ ndDecls S → y ∈ Goml.Dce.allDecls S
+  | [], y, h => by simp [ndDecls] at h
+  | s :: rest, y, h => by
+    simp only [ndDecls, List.mem_append] at h
+    simp only [Goml.Dce.allDecls, List.mem_append]
+    rcases h with h | h
+    · exact Or.inl (ndDeclsOf_sub s y h)
+    · exact Or.inr (ndDecls_sub rest y h)
+theorem ndDeclsOf_sub : ∀ (s : GStmt) (y : String), y ∈ ndDeclsOf s → y ∈ Goml.Dce.declsOf s
+  | .varDecl x _ _, y, h => by simpa [ndDeclsOf, Goml.Dce.declsOf] using h
+  | .ite _ t none, y, h => by
+    simp only [ndDeclsOf, List.append_nil] at h
+    simp only [Goml.Dce.declsOf, List.append_nil]
+    exact ndDecls_sub t y h
+  | .ite _ t (some e), y, h => by
+    simp only [ndDeclsOf, List.mem_append] at h
+    simp only [Goml.Dce.declsOf, List.mem_append]
+    exact h.imp (ndDecls_sub t y) (ndDecls_sub e y)
+  | .loop b, y, h => by
+    simp only [ndDeclsOf] at h
+    simp only [Goml.Dce.declsOf]
+    exact ndDecls_sub b y h
+  | .switch _ cs none, y, h => by
+    simp only [ndDeclsOf, List.append_nil] at h
+    simp only [Goml.Dce.declsOf, List.append_nil]
+    exact ndDeclsCases_sub cs y h
+  | .switch _ cs (some d), y, h => by
+    simp only [ndDeclsOf, List.mem_append] at h
+    simp only [Goml.Dce.declsOf, List.mem_append]
+    exact h.imp (ndDeclsCases_sub cs y) (ndDecls_sub d y)
+  | .tswitch bind _ cs none, y, h => by
+    simp only [ndDeclsOf, List.append_nil] at h
+    simp only [Goml.Dce.declsOf, List.append_nil, List.mem_append]
+    exact Or.inr (ndDeclsTCases_sub cs y h)
+  | .tswitch bind _ cs (some d), y, h => by
+    simp only [ndDeclsOf, List.mem_append] at h
+    simp only [Goml.Dce.declsOf, List.mem_append]
+    rcases h with h | h
+    · exact Or.inl (Or.inr (ndDeclsTCases_sub cs y h))
+    · exact Or.inr (ndDecls_sub d y h)
+  | .expr _, y, h => by simp [ndDeclsOf] at h
+  | .go _, y, h => by simp [ndDeclsOf] at h
+  | .assign _ _, y, h => by simp [ndDeclsOf] at h
+  | .fieldAssign _ _, y, h => by simp [ndDeclsOf] at h
+  | .ptrAssign _ _, y, h => by simp [ndDeclsOf] at h
+  | .indexAssign _ _ _, y, h => by simp [ndDeclsOf] at h
+  | .ret _, y, h => by simp [ndDeclsOf] at h
+  | .brk, y, h => by simp [ndDeclsOf] at h
+theorem ndDeclsCases_sub : ∀ (cs : List GCase) (y : String), y ∈ ndDeclsCases cs → y ∈ Goml.Dce.declsCases cs
+  | [], y, h => by simp [ndDeclsCases] at h
+  | .mk _ b :: rest, y, h => by
+    simp only [ndDeclsCases, List.mem_append] at h
+    simp only [Goml.Dce.declsCases, List.mem_append]
+    exact h.imp (ndDecls_sub b y) (ndDeclsCases_sub rest y)
+theorem ndDeclsTCases_sub : ∀ (cs : List GTCase) (y : String), y ∈ ndDeclsTCases cs → y ∈ Goml.Dce.declsTCases cs
+  | [], y, h => by simp [ndDeclsTCases] at h
+  | .mk _ b :: rest, y, h => by
+    simp only [ndDeclsTCases, List.mem_append] at h
+    simp only [Goml.Dce.declsTCases, List.mem_append]
+    exact h.imp (ndDecls_sub b y) (ndDeclsTCases_sub rest y)
+end
 
 end Goml.GoComp
